@@ -86,6 +86,9 @@ func verifyFromBtcTx(native *native.NativeService, proof, tx []byte, fromChainID
 		return nil, fmt.Errorf("VerifyFromBtcProof, failed to decode the transaction %s: %s", hex.EncodeToString(tx), err)
 	}
 	// check tx is legal format for btc cross chain transaction
+	if len(mtx.TxOut) < 2 {
+		return nil, fmt.Errorf("VerifyFromBtcProof, not crosschain btc tx, since it has %d outputs, at least 2 are needed", len(mtx.TxOut))
+	}
 	err = ifCanResolve(mtx.TxOut[1], mtx.TxOut[0].Value)
 	if err != nil {
 		return nil, fmt.Errorf("VerifyFromBtcProof, not crosschain btc tx, since failed to resolve parameter: %v", err)
